@@ -90,7 +90,7 @@ def storeResp (s : State) (r : String) (subject : String) (ds : List Desc) : Sta
   let dg : Dig := ⟨.sha256, name⟩
   let s := { s with resps := if s.resps.any (·.1 = name) then s.resps else s.resps ++ [(name, ds)] }
   let s := putContent s r dg name
-  indexInsert s r { mt := "ocii", dig := dg.str, size := 0, ann := { isNil := false, subj := subject } } ds
+  indexInsert s r { mt := "ocii", dig := dg.str, size := respSize ds, ann := { isNil := false, subj := subject } } ds
 
 def referrerAdd (s : State) (r : String) (subject : String) (d : Desc) : State :=
   let old := match currentResp s r subject with | some (_, ds) => ds | none => []
@@ -120,38 +120,63 @@ structure Accepted where
 
 def refuse (status : Nat) (code : String) : Except Resp α := .error { status := status, code := code }
 
-/-- every check of manifestPut, in the handler's order; no state is touched -/
-def mValidate (s : State) (r ref ct qd bodyName : String) : Except Resp Accepted := do
-  if !(ct = "" ∨ isImageMT ct ∨ isIndexMT ct) then refuse 400 "MANIFEST_INVALID"
-  let qExpect : Option Dig ←
-    if qd = "" then pure none else match DigArg.parse qd with
-      | .ok d => pure (some d)
-      | .bad => refuse 400 "DIGEST_INVALID"
-  let (tag, expect) : String × Option Dig ←
-    if isTag ref then pure (ref, qExpect) else match DigArg.parse ref with
-      | .ok d => pure ("", some d)
-      | .bad => refuse 400 "DIGEST_INVALID"
-  let alg := match expect with | some e => e.alg | none => Alg.sha256
-  let d : Dig := ⟨alg, bodyName⟩
-  if expect.isSome ∧ expect ≠ some d then refuse 400 "DIGEST_INVALID"
-  let b := s.body bodyName
-  let mt := if ct = "" then detect b else ct
-  let rp := s.repo r
-  if isImageMT mt then
-    match b.asImage with
-    | none => refuse 400 "MANIFEST_INVALID"
-    | some v =>
-      if !(hasBlob rp v.cfg ∧ v.layers.all (hasBlob rp)) then refuse 400 "MANIFEST_BLOB_UNKNOWN"
-      pure { d := d, mt := mt, tag := tag, children := [], subject := v.subj, len := b.len,
-             refd := { mt := mt, dig := d.str, size := b.len, atype := if v.atype = "" then v.cfgMt else v.atype, rann := v.rann } }
-  else if isIndexMT mt then
-    match b.asIndex with
-    | none => refuse 400 "MANIFEST_INVALID"
-    | some v =>
-      if !(v.children.all fun c => hasBlob rp c.dig) then refuse 400 "MANIFEST_BLOB_UNKNOWN"
-      pure { d := d, mt := mt, tag := tag, children := v.children, subject := v.subj, len := b.len,
-             refd := { mt := mt, dig := d.str, size := b.len, atype := v.atype, rann := v.rann } }
+/-! every check of manifestPut, in the handler's order, as small steps; no state is touched -/
+
+def checkCt (ct : String) : Except Resp Unit :=
+  if !(ct = "" ∨ isImageMT ct ∨ isIndexMT ct) then refuse 400 "MANIFEST_INVALID" else pure ()
+
+/-- size limit: on the Content-Length header when there is one, and on the bytes read -/
+def checkLen (limit : Nat) (len : Nat) (applies : Bool) : Except Resp Unit :=
+  if applies ∧ len > limit then refuse 413 "MANIFEST_INVALID" else pure ()
+
+def parseQd (qd : String) : Except Resp (Option Dig) :=
+  if qd = "" then pure none else match DigArg.parse qd with
+    | .ok d => pure (some d)
+    | .bad => refuse 400 "DIGEST_INVALID"
+
+def parseRef (ref : String) (qExpect : Option Dig) : Except Resp (String × Option Dig) :=
+  if isTag ref then pure (ref, qExpect) else match DigArg.parse ref with
+    | .ok d => pure ("", some d)
+    | .bad => refuse 400 "DIGEST_INVALID"
+
+def checkDigest (expect : Option Dig) (d : Dig) : Except Resp Unit :=
+  if expect.isSome ∧ expect ≠ some d then refuse 400 "DIGEST_INVALID" else pure ()
+
+def validateImage (refOn : Bool) (rp : Repo) (b : Body) (mt tag : String) (d : Dig) : Except Resp Accepted :=
+  match b.asImage with
+  | none => refuse 400 "MANIFEST_INVALID"
+  | some v =>
+    if v.mtField ≠ "" ∧ v.mtField ≠ mt then refuse 400 "MANIFEST_INVALID"
+    else if !(hasBlob rp v.cfg ∧ v.layers.all (hasBlob rp)) then refuse 400 "MANIFEST_BLOB_UNKNOWN"
+    else pure { d := d, mt := mt, tag := tag, children := [], subject := if refOn then v.subj else "", len := b.len,
+                refd := { mt := mt, dig := d.str, size := b.len, atype := if v.atype = "" then v.cfgMt else v.atype, rann := v.rann } }
+
+def validateIndex (refOn : Bool) (rp : Repo) (b : Body) (mt tag : String) (d : Dig) : Except Resp Accepted :=
+  match b.asIndex with
+  | none => refuse 400 "MANIFEST_INVALID"
+  | some v =>
+    if v.mtField ≠ "" ∧ v.mtField ≠ mt then refuse 400 "MANIFEST_INVALID"
+    else if !(v.children.all fun c => hasBlob rp c.dig) then refuse 400 "MANIFEST_BLOB_UNKNOWN"
+    else pure { d := d, mt := mt, tag := tag, children := v.children, subject := if refOn then v.subj else "", len := b.len,
+                refd := { mt := mt, dig := d.str, size := b.len, atype := v.atype, rann := v.rann } }
+
+def validateBody (refOn : Bool) (rp : Repo) (b : Body) (mt tag : String) (d : Dig) : Except Resp Accepted :=
+  if isImageMT mt then validateImage refOn rp b mt tag d
+  else if isIndexMT mt then validateIndex refOn rp b mt tag d
   else refuse 400 "MANIFEST_INVALID"
+
+/-- `lenKnown` = the request carried a Content-Length -/
+def mValidate (s : State) (r ref ct qd bodyName : String) (lenKnown : Bool := true) : Except Resp Accepted :=
+  let b := s.body bodyName
+  checkCt ct >>= fun _ =>
+  checkLen s.conf.mlimit b.len lenKnown >>= fun _ =>
+  parseQd qd >>= fun qExpect =>
+  parseRef ref qExpect >>= fun te =>
+  -- the body is read through a reader limited to one byte more than the limit
+  checkLen s.conf.mlimit b.len true >>= fun _ =>
+  let d : Dig := ⟨match te.2 with | some e => e.alg | none => Alg.sha256, bodyName⟩
+  checkDigest te.2 d >>= fun _ =>
+  validateBody s.conf.ref (s.repo r) b (if ct = "" then detect b else ct) te.1 d
 
 /-- the effects of an accepted push: blob, index entry, referrers response -/
 def mCommit (s : State) (r bodyName : String) (a : Accepted) : State × Resp :=
@@ -162,9 +187,9 @@ def mCommit (s : State) (r bodyName : String) (a : Accepted) : State × Resp :=
   (s3, { status := 201, loc := manLoc r a.d, dcd := a.d.str, subj := a.subject })
 
 /-- manifest PUT; `ct` is the cleaned Content-Type token ("" = absent), `qd` the ?digest= parameter -/
-def mPut (s : State) (r : String) (ref : String) (ct : String) (qd : String) (bodyName : String) : State × Resp :=
+def mPut (s : State) (r : String) (ref : String) (ct : String) (qd : String) (bodyName : String) (lenKnown : Bool := true) : State × Resp :=
   let s := s.setRepo (s.repo r)
-  match mValidate s r ref ct qd bodyName with
+  match mValidate s r ref ct qd bodyName lenKnown with
   | .error e => (s, e)
   | .ok a => mCommit s r bodyName a
 
@@ -175,14 +200,9 @@ def getDesc (ix : Index) (arg : String) : Option Desc :=
     | .ok d => getDescDig ix d.str
     | .bad => none
 
-def contentLen (s : State) (content : String) : Nat :=
-  match s.defs.find? (·.1 = content) with
-  | some (_, b) => b.len
-  | none => content.length
+inductive Pick | found (d : Desc) | notFound | blobMissing | serverError
 
-inductive Pick | found (d : Desc) | notFound | serverError
-
-def mGet (s : State) (r : String) (arg : String) (accept : List String) (head : Bool) : State × Resp :=
+def mGet (s : State) (r : String) (arg : String) (accept : List String) (head : Bool) (rng : String := "") : State × Resp :=
   let s := s.setRepo (s.repo r)
   let rp := s.repo r
   match getDesc rp.index arg with
@@ -191,11 +211,11 @@ def mGet (s : State) (r : String) (arg : String) (accept : List String) (head : 
     let pick : Pick :=
       if accept.contains desc.mt then .found desc
       else if !accept.isEmpty ∧ isIndexMT desc.mt ∧ isTag arg then
-        -- the tagged index is opened to look for an acceptable child; any error here is a 500 in the handler
+        -- the tagged index is opened to look for an acceptable child
         match DigArg.parse desc.dig with
         | .bad => .serverError
         | .ok dg => match rp.blob dg with
-          | none => .serverError
+          | none => .blobMissing
           | some content => match (s.body content).asIndex with
             | none => .serverError
             | some v => match v.children.find? (fun c => accept.contains c.mt) with
@@ -204,13 +224,14 @@ def mGet (s : State) (r : String) (arg : String) (accept : List String) (head : 
       else .notFound
     match pick with
     | .serverError => (s, { status := 500 })
+    | .blobMissing => (s, { status := 404, code := "MANIFEST_BLOB_UNKNOWN" })
     | .notFound => (s, { status := 404, code := "MANIFEST_UNKNOWN" })
     | .found d =>
       match DigArg.parse d.dig with
       | .bad => (s, { status := 500 })
       | .ok dg => match rp.blob dg with
         | none => (s, { status := 404, code := "MANIFEST_BLOB_UNKNOWN" })
-        | some content => (s, { status := 200, ct := d.mt, dcd := dg.str, body := if head then s!"len{contentLen s content}" else "=" ++ content })
+        | some content => (s, serve s content rng head dg.str d.mt)
 
 def mDel (s : State) (r : String) (arg : String) : State × Resp :=
   let s := s.setRepo (s.repo r)
@@ -220,6 +241,7 @@ def mDel (s : State) (r : String) (arg : String) : State × Resp :=
   | some desc =>
     -- referrers: drop the entry from the subject's response
     let s1 :=
+      if !s.conf.ref ∨ isTag arg then s else
       match DigArg.parse desc.dig with
       | .bad => s
       | .ok dg => match rp.blob dg with
@@ -230,48 +252,104 @@ def mDel (s : State) (r : String) (arg : String) : State × Resp :=
           if subj = "" then s else referrerDelete s r subj desc
     (indexRemove s1 r desc, { status := 202 })
 
+/-- `strconv.Atoi` on a 64-bit platform: optional sign, decimal digits, range of int64 -/
+def atoi? (t : String) : Option Int :=
+  let body := if t.startsWith "+" ∨ t.startsWith "-" then (t.drop 1).toString else t
+  if body.isEmpty ∨ !body.all Char.isDigit then none else
+  match body.toNat? with
+  | none => none
+  | some k =>
+    let v : Int := if t.startsWith "-" then - (k : Int) else (k : Int)
+    if v < -9223372036854775808 ∨ v > 9223372036854775807 then none else some v
+
 def insertSorted (x : String) : List String → List String
   | [] => [x]
   | y :: ys => if x ≤ y then x :: y :: ys else y :: insertSorted x ys
 def sortS (l : List String) : List String := l.foldl (fun acc x => insertSorted x acc) []
 
-/-- tags/list; `n` is the raw query value ("" absent). Returns PANIC where the Go code indexes out of range -/
+/-- tags/list; `n` is the raw query value ("" absent) -/
 def tags (s : State) (r : String) (n : String) (last : String) : State × Resp :=
   let s := s.setRepo (s.repo r)
   let all := (s.repo r).index.manifests.filterMap fun d => if !d.ann.isNil ∧ d.ann.tag ≠ "" ∧ last < d.ann.tag then some d.ann.tag else none
   let sorted := sortS all
   let ok := fun (l : List String) (link : String) => (s, ({ status := 200, body := "[" ++ ",".intercalate l ++ "]", link := link } : Resp))
   if n = "" then ok sorted "" else
-  match n.toInt? with
+  match atoi? n with
   | none => ok sorted ""
   | some ni =>
-    if (sorted.length : Int) > ni then
-      if ni < 0 then (s, { status := 999 })                       -- slice bounds out of range
-      else
-        let cut := sorted.take ni.toNat
-        match cut.getLast? with
-        | none => (s, { status := 999 })                          -- index out of range [-1]
-        | some l => ok cut s!"next(last={l})"
+    if 0 ≤ ni ∧ (sorted.length : Int) > ni then
+      let cut := sorted.take ni.toNat
+      match cut.getLast? with
+      | none => ok cut ""                                      -- n = 0: an empty page without a Link
+      | some l => ok cut s!"next(last={l},n={n})"
     else ok sorted ""
 
 def fmtRef (d : Desc) : String := s!"{d.dig}/{d.mt}/{d.size}/{d.atype}/{d.rann}"
 
-def refs (s : State) (r : String) (arg : String) (filter : String) : State × Resp :=
+/-- `referrerSplit`: pages of a descriptor list that each stay within the limit; an entry too big on its own is dropped -/
+def splitLoop (limit : Nat) : List Desc → List Desc → Option (List Desc) → List (List Desc) → List (List Desc)
+  | [], _, last, res => match last with | some l => res ++ [l] | none => res
+  | d :: ds, cur, last, res =>
+    if respSize (cur ++ [d]) > limit then
+      let res1 := match last with | some l => res ++ [l] | none => res
+      if respSize [d] > limit then splitLoop limit ds [] none res1
+      else splitLoop limit ds [d] (some [d]) res1
+    else splitLoop limit ds (cur ++ [d]) (some (cur ++ [d])) res
+
+def referrerSplit (limit : Nat) (ds : List Desc) : List (List Desc) := splitLoop limit ds [] none []
+
+def pageOf (pageStr : String) : Nat := match atoi? pageStr with | some i => if i < 0 then 0 else i.toNat | none => 0
+def refsBody (ds : List Desc) : String := "[" ++ ",".intercalate (ds.map fmtRef) ++ "]"
+def emptyRefs : Resp := { status := 200, ct := "ocii", body := "[]" }
+def refsLink (page total : Nat) (cacheDig : String) : String :=
+  if page + 1 < total then s!"next(cache={cacheDig},page={page + 1})" else ""
+
+/-- referrers GET: `filter` = artifactType parameter, `cacheTok`/`pageStr` = the cache and page parameters -/
+def refs (s : State) (r : String) (arg : String) (filter : String) (cacheTok : String := "") (pageStr : String := "") : State × Resp :=
   let s := s.setRepo (s.repo r)
-  let empty : Resp := { status := 200, ct := "ocii", body := "[]" }
+  let page := pageOf pageStr
+  let filt := if filter ≠ "" then "artifactType" else ""
+  let fromCache (pages : List (List Desc)) (pg : Nat) (cacheDig : String) : Resp :=
+    { status := 200, ct := "ocii", filt := filt, body := refsBody (pages.getD pg []), link := refsLink pg pages.length cacheDig }
+  -- a paged request that names a cached response
+  let paged : Option Resp :=
+    if cacheTok ≠ "" ∧ page ≠ 0 then
+      match DigArg.parse cacheTok with
+      | .bad => some { status := 400, code := "UNSUPPORTED" }
+      | .ok cd =>
+        match s.rcache.find? (·.1 = (r, arg, cd.str, filter)) with
+        | some (_, pages) => if page < pages.length then some (fromCache pages page cd.str) else none
+        | none => none
+    else none
+  match paged with
+  | some resp => (s, resp)
+  | none =>
   match getBySubj (s.repo r).index arg with
-  | none => (s, empty)
+  | none => (s, emptyRefs)
   | some d =>
-    match s.rcache.find? (·.1 = (d.dig, filter)) with
-    | some (_, served) => (s, { status := 200, ct := "ocii", body := "[" ++ ",".intercalate (served.map fmtRef) ++ "]" })   -- cache hit: no filter header
+    match s.rcache.find? (·.1 = (r, arg, d.dig, filter)) with
+    | some (_, pages) =>
+      let pg := if page ≥ pages.length then 0 else page
+      (s, fromCache pages pg d.dig)
     | none =>
       match DigArg.parse d.dig with
-      | .bad => (s, empty)
+      | .bad => (s, emptyRefs)
       | .ok dg => match (s.repo r).blob dg with
-        | none => (s, empty)
+        | none => (s, emptyRefs)
         | some content =>
           let full := (s.resp content).getD []
           let out := if filter ≠ "" then full.filter (·.atype = filter) else full
-          ({ s with rcache := s.rcache ++ [((d.dig, filter), out)] },
-           { status := 200, ct := "ocii", filt := if filter ≠ "" then "artifactType" else "", body := "[" ++ ",".intercalate (out.map fmtRef) ++ "]" })
+          let outSize := if filter ≠ "" then respSize out else contentLen s content
+          if outSize > s.conf.rlimit then
+            let pages := referrerSplit s.conf.rlimit out
+            if pages.isEmpty then (s, emptyRefs)
+            else
+              let cacheSame := match DigArg.parse cacheTok with | .ok cd => cd.str = d.dig | .bad => false
+              let pg := if page > 0 ∧ (!cacheSame ∨ page ≥ pages.length) then 0 else page
+              ({ s with rcache := s.rcache ++ [((r, arg, d.dig, filter), pages)] },
+               { status := 200, ct := "ocii", filt := filt, body := refsBody (pages.getD pg []), link := refsLink pg pages.length d.dig,
+                 cl := toString (respSize (pages.getD pg [])) })
+          else
+            ({ s with rcache := s.rcache ++ [((r, arg, d.dig, filter), [out])] },
+             { status := 200, ct := "ocii", filt := filt, body := refsBody out, cl := toString outSize })
 end Upd
